@@ -6,6 +6,7 @@ import (
 	"go/token"
 	"go/types"
 	"math/big"
+	"os"
 	"sort"
 	"strings"
 
@@ -354,6 +355,9 @@ func (e *FnEnc) encodeBlock(b *ssa.BasicBlock) {
 		}
 		// havoc
 		preState := e.st.clone()
+		if e.pass == 2 && os.Getenv("GOVC_DEBUG") != "" {
+			fmt.Fprintf(os.Stderr, "loop %d of %s: modAll=%v writes %v\n", li.ordinal, e.key, li.modAll, sortedKeys(li.mods))
+		}
 		if e.pass == 2 {
 			if li.modAll {
 				e.havocAll()
@@ -386,6 +390,7 @@ func (e *FnEnc) encodeBlock(b *ssa.BasicBlock) {
 		e.loopPre[li] = preState
 		if e.pass == 2 {
 			e.loopFrame(li, preState, true)
+			e.autoCounterInvariants(li, phis, entryVals)
 		}
 	}
 	for _, in := range b.Instrs {
@@ -407,6 +412,7 @@ func (e *FnEnc) encodeBlock(b *ssa.BasicBlock) {
 			saveG := e.curGuard
 			e.curGuard = e.edgeCond(b, s)
 			e.loopFrame(sli, e.loopPre[sli], false)
+			e.autoCounterPreserve(sli, b)
 			e.curGuard = saveG
 		}
 		if spec == nil || e.pass != 2 {
